@@ -430,6 +430,16 @@ pub mod walkdir {
     }
     #[derive(Debug)]
     pub struct Error;
+    #[derive(Clone, Copy, Debug, PartialEq, Eq)]
+    pub struct FileType(bool);
+    impl FileType {
+        pub fn is_file(&self) -> bool {
+            self.0
+        }
+        pub fn is_dir(&self) -> bool {
+            !self.0
+        }
+    }
     #[derive(Clone, Copy)]
     pub struct PathRef<'a>(&'a Path, bool);
     impl<'a> PathRef<'a> {
@@ -469,6 +479,9 @@ pub mod walkdir {
         }
         pub fn depth(&self) -> usize {
             usize::from(self.is_file)
+        }
+        pub fn file_type(&self) -> FileType {
+            FileType(self.is_file)
         }
     }
     impl WalkDir {
